@@ -5,6 +5,7 @@ import ErgoVerif.Lemmas.SupLoopSOFO
 import ErgoVerif.Lemmas.SupLoopOFO
 import ErgoVerif.Lemmas.SupTrackOFO
 import ErgoVerif.Lemmas.SupTrackOFO2
+import ErgoVerif.Lemmas.SupLoopARFO
 /-!
 # C08 — supervisor restart semantics by type and strategy
 
@@ -29,6 +30,7 @@ Contents
 * one-for-one, closed system, ALL histories: `C08_ofo_no_panic` (no panic, handleAction terminates).
 * one-for-one tracking of the children table: `C08_ofo_tracking_*_step` and the closure `C08_all_stopped_ofo_partial`
   (all histories outside the regions D26/D27).
+* all/rest-for-one WITHOUT KeepOrder, closed system, ALL histories: `C08_no_panic_arfo_closed_partial`.
 * refuted full statements (listed findings) with proved counterexamples:
   `C08_no_panic_arfo_full` (D18), `C08_prescribed_set_full` (D25), `C08_all_stopped_ofo_full` (D26, D27),
   and the partial results that do hold.
@@ -445,6 +447,16 @@ theorem C08_no_panic_arfo_partial (s : ARFO) (name pid : Nat) (r : Reason) (now 
             · exact absurd h (quietStep_no_panic _ _ _ _)
             · exact Or.inr (intensityStep_panic _ _ _ _ _ h)
           · exact Or.inr (intensityStep_panic _ _ _ _ _ h)
+
+/-- the closed-system partial result for D18: an all-for-one / rest-for-one supervisor whose spec does NOT ask for
+KeepOrder never panics and its handleAction always finishes — for every valid spec and EVERY history (children dying
+at any moment, also while others are being stopped; exits handled in any order; spawn failures; foreign exits;
+management calls).  Invariant: in the stopping mode every running child of the restart group is in the wait set and
+the group contains an enabled spec, so `childForStart` always finds a spec without a child. -/
+theorem C08_no_panic_arfo_closed_partial (sp : SupSpec) (hv : ValidSpec sp) (hko : sp.restart.keepOrder = false)
+    (c : Loop ARFO) (h : ArfoReach sp c) : c.status ≠ .panicked ∧ c.status ≠ .stuck := by
+  obtain ⟨ls, hr⟩ := h
+  exact (run_inv (Inv := ARFO.Inv) (fun s a s' hi hs => ARFO.step_inv s s' a hi hs) (ARFO.boot_inv sp hv.1 hko) hr).sane
 
 /-- T1, full (Permanent): at quiescence every enabled spec has a running child, in every history without
 spawn failures -/
